@@ -44,6 +44,26 @@ def inits_code(text):
     return ','.join(out)
 
 
+def canon_locals(stmts):
+    """names of generated locals carry no meaning: rename them to the ones the templates use"""
+    out = list(stmts)
+    ren = {}
+    for st in stmts:
+        m = re.match(r'^let mut (\w+)=\w+\{ctx:self\.ctx,', st)
+        if m and m.group(1) != 'new_machine':
+            ren[m.group(1)] = 'new_machine'
+        m = re.search(r'AroundOutcome::Abort\((\w+)\)=>\{let (\w+)=match&(\w+)\.kind\{', st)
+        if m and m.group(1) == m.group(3):
+            if m.group(1) != 'err':
+                ren[m.group(1)] = 'err'
+            if m.group(2) != 'callback_name':
+                ren[m.group(2)] = 'callback_name'
+    if ren and not (set(ren.values()) & set(ren.keys())):
+        pat = re.compile(r'(?<![\w])(' + '|'.join(re.escape(k) for k in ren) + r')(?![\w])')
+        out = [pat.sub(lambda mm: ren[mm.group(1)], st) for st in out]
+    return out
+
+
 def stmt_code(st, name):
     m = RE_AB.match(st)
     if m and m.group(1) == m.group(3):
@@ -119,7 +139,7 @@ def skel_table(skel, name, concrete):
                         if f['inputs'][0] != 'mut self' or f['vis'] != 'pub':
                             pl = 'BADSIG'
                         out.append('m|%s|%s|%s|%s|%s' % (st, f['name'], r.group(1), pl, 'a' if f['async'] else '-'))
-                        out.append('b|%s|%s|%s' % (st, f['name'], ';'.join(stmt_code(x, name) for x in f['stmts'])))
+                        out.append('b|%s|%s|%s' % (st, f['name'], ';'.join(stmt_code(x, name) for x in canon_locals(f['stmts']))))
                     elif f['name'] == 'into_dynamic':
                         pass
                     elif f['name'].endswith('_data') and f['output'].startswith('&') and f['inputs'] == ['&self']:
